@@ -254,8 +254,27 @@ func checkEmissionSite(c *core.Ctx, fn *ssa.Function, iesName string, urrSeq *ty
 	// the IE builder gets that report, in the same block, after the store
 	recv := core.CallRecv(ies)
 	same := false
-	if ld, ok := recv.(*ssa.UnOp); ok && ld.Op == token.MUL && ld.X == rLocal && st != nil {
-		same = core.InstrDominates(st, ld) && ies.Block() == sq.Block()
+	if ld, ok := recv.(*ssa.UnOp); ok && ld.Op == token.MUL && st != nil {
+		// the report itself, or a whole copy of it taken after the number was stored (a by-value parameter of
+		// an expanded helper or literal)
+		src := ld.X
+		cur := ld
+		for i := 0; i < 4 && src != rLocal; i++ {
+			al, isAl := src.(*ssa.Alloc)
+			if !isAl {
+				break
+			}
+			sv, ok := soleWholeStoreAllowingFields(al)
+			if !ok {
+				break
+			}
+			l2, isLd := sv.(*ssa.UnOp)
+			if !isLd || l2.Op != token.MUL {
+				break
+			}
+			src, cur = l2.X, l2
+		}
+		same = src == rLocal && core.InstrDominates(st, cur) && straightLine(sq.Block(), ies.Block())
 	}
 	c.Check("R2", "emitted-iff-consumed:"+name, ies.Pos(), same, "the IE builder receives that report value in the same basic block: a number is consumed iff an IE is emitted")
 	// the IEs end up in the message: flows through the UsageReport constructor into an append
@@ -1001,4 +1020,32 @@ func freeVarCell(fv *ssa.FreeVar) (ssa.Value, bool) {
 		}
 	})
 	return out, out != nil
+}
+
+// straightLine: b is a, or follows it through unconditional jumps only (no branch in between, nothing joins).
+func straightLine(a, b *ssa.BasicBlock) bool {
+	for i := 0; i < 16; i++ {
+		if a == b {
+			return true
+		}
+		if len(a.Succs) != 1 || len(a.Succs[0].Preds) != 1 {
+			return false
+		}
+		a = a.Succs[0]
+	}
+	return false
+}
+
+// soleWholeStoreAllowingFields: the local receives exactly one whole-value store (it may be modified field by
+// field afterwards: the copy still started out as that value).
+func soleWholeStoreAllowingFields(a *ssa.Alloc) (ssa.Value, bool) {
+	var val ssa.Value
+	n := 0
+	for _, r := range *a.Referrers() {
+		if st, ok := r.(*ssa.Store); ok && st.Addr == ssa.Value(a) {
+			n++
+			val = st.Val
+		}
+	}
+	return val, n == 1
 }
